@@ -5,6 +5,9 @@ TECH = "contract-based deductive verification: pyvc VC generation from the real 
 TRUST = ("home-made VC generator (Python subset semantics of DESIGN section 2), assumed external contracts listed in the evidence "
          "file's trusted_base, solver soundness; see evidence.assumptions")
 CLAIMED = {
+    "C12": ("proof", "Tokenizer.tokenize's loop invariant (the emitted tokens are a prefix partition of the text at cumulative offsets; the index list names exactly "
+            "the special tokens, in increasing order) and postcondition PART are discharged for all texts and all candidate-token lists satisfying CAND, "
+            "including the nominative-reporter pop branch; no bound on text or token count.", "6/C12"),
     "C02": ("proof", "The class invariant SPANS (0 <= full start <= span start <= span end <= full end <= len(text), span starts at and covers the "
             "matched token, pin-cite offsets inside the text, pin-cite text inside the pin-cite span) is a discharged postcondition of every function that "
             "constructs or extends a citation's offsets (match_on_tokens window contract WIN, extract_pin_cite, add_post_citation, add_defendant, "
